@@ -181,7 +181,7 @@ def gen_case(rng, i, tier):
         sc = 2.0 ** k
         mc["map"] = G.transform_map(mc["map"], sc, off)
         mc["trace"] = G.transform_trace(mc["trace"], sc, off)
-        for key in ("obs_noise", "obs_noise_ne", "dist_noise", "max_dist", "max_dist_init"):
+        for key in ("obs_noise", "obs_noise_ne", "dist_noise", "dist_noise_ne", "max_dist", "max_dist_init"):
             if mc["cfg"].get(key) is not None:
                 mc["cfg"][key] *= sc
         return {"fn": "matcher", "cls": "matcher", "mcase": mc}
@@ -265,6 +265,11 @@ def check_segseg(ctx, fn, a, b, c, d, case, where="direct", res=None):
     return res
 
 
+def _pre_variant(p):
+    import struct
+    return int.from_bytes(struct.pack("d", float(p[0]) + float(p[1])), "little") % 4 == 0
+
+
 def check_ptseg(ctx, fn_proj, fn_dist, p, a, b, case, where="direct", res=None):
     ctx.evaluated()
     ctx.count("ptseg_judged" if where == "direct" else "ptseg_judged_in_matcher")
@@ -273,6 +278,15 @@ def check_ptseg(ctx, fn_proj, fn_dist, p, a, b, case, where="direct", res=None):
     rd, rt, rq = rg.pl_point_segment(p, a, b)
     try:
         if res is None:
+            if _pre_variant(p):
+                # the answer to a default call may not depend on what was asked before: a quarter of the judged calls is
+                # preceded by a call for the SAME point and segment with another value of the optional `delta`
+                ctx.count("calls_preceded_by_other_options")
+                try:
+                    fn_dist(p, a, b, delta=0.25)
+                    fn_proj(a, b, p, delta=0.125)
+                except Exception:
+                    pass
             q, t = fn_proj(a, b, p)
             dd, q2, t2 = fn_dist(p, a, b)
         else:
@@ -295,6 +309,17 @@ def check_ptseg(ctx, fn_proj, fn_dist, p, a, b, case, where="direct", res=None):
         ctx.violation(f"C13:distance_point_to_segment:distance-wrong:{zero}", case, f"[{where}] d={dd!r} exact={rd!r} p={p} a={a} b={b}")
     if tuple(q2[:2]) != tuple(q[:2]) or t2 != t:
         ctx.violation(f"C13:distance_point_to_segment:disagrees-with-project:{zero}", case, f"[{where}] {q2, t2} vs {q, t}")
+    if res is None and where == "direct" and int(abs(rd) * 1e7) % 5 == 0:
+        # the same call with the points given as lists / numpy arrays / numpy scalars
+        import numpy as np
+        ctx.count("container_variants_judged")
+        for mk in (list, np.array, lambda x: tuple(np.float64(v) for v in x)):
+            try:
+                d3, q3, t3 = fn_dist(mk(p), mk(a), mk(b))
+                if not (abs(float(d3) - dd) <= tol and math.dist([float(v) for v in q3[:2]], q2[:2]) <= tol and abs(float(t3) - t2) * max(math.dist(a, b), 1e-300) <= tol):
+                    ctx.violation(f"C13:distance_point_to_segment:container-changes-the-answer:{zero}", case, f"{(d3, q3, t3)} vs {(dd, q2, t2)}")
+            except Exception as e:
+                ctx.violation(f"C13:ptseg:raises-{type(e).__name__}:container", case, repr(e))
 
 
 BEARINGS = [i * 2 * math.pi / 64 for i in range(64)]
